@@ -216,7 +216,8 @@ PROPS['C22'] = {
 }
 
 SOLVER_FNS = ['solution_node.rs::next_solution', 'solution_node_and_or.rs::next_solution_and', 'solution_node_and_or.rs::next_solution_or',
-              'solution_node.rs::get_goal', 'solution_node.rs::no_backtracking']
+              'solution_node.rs::get_goal', 'solution_node.rs::no_backtracking',
+              'goal.rs::make_solution_node', 'goal.rs::make_base_node', 'goal.rs::set_head_node', 'solution_node.rs::SolutionNode::new']
 PROPS['C05'] = {
     'units': ['solver'],
     'functions': SOLVER_FNS,
@@ -227,7 +228,7 @@ PROPS['C05'] = {
         'PROVED (Verus, verbatim bodies of next_solution / next_solution_and / next_solution_or over the ghost node heap of spec/solver.rs, rule R15): a node that returns None is left in a state (`local_done`) from which every later request returns None, '
         'calls no predicate of the knowledge base and writes nothing - for complex goals, and / or, not, time and built-in predicates, whatever the knowledge base, the bindings and the results of unification; the invariant is kept by every request, also by those that answer. '
         'Partial correctness: the search need not terminate; the statement is about requests that return',
-        'RELATIVE TO the heap model of Rc<RefCell<SolutionNode>> (T8) and to ASSUMED contracts of two functions that are not under proof in this unit: next_solution_bip (a built-in predicate tests and clears `more_solutions` first - its first two statements - and the cut writes only no_backtracking flags) and make_solution_node (a fresh node below its parent, existing nodes untouched)',
+        'RELATIVE TO the heap model of Rc<RefCell<SolutionNode>> (T8) and to the ASSUMED contract of next_solution_bip (a built-in predicate tests and clears `more_solutions` first - its first two statements - and the cut writes only no_backtracking flags). make_solution_node, make_base_node, set_head_node and SolutionNode::new are PROVED in the same unit (rule R15h: rc_cell!(x) is an allocation in the ghost heap): a fresh node one level below its parent with the given goal and bindings, operator nodes get their head node, existing nodes untouched, the invariant kept also while the nodes above are under construction',
         'solve() / solve_all(): that "No more." is returned exactly when next_solution returned None and the query was not stopped is read from their 20 lines, not proved (unit solutions proves the timer discipline only); the bounded oracle asks through solve() as well',
         'unify, get_rule, Rule::get_head/get_body, Goal::key, get_var_id/set_var_id are ABSTRACT in this unit (signature only, arbitrary results): the clauses hold for every behaviour of theirs that returns; their own panics are outside (C06, C10, C18 cover them under their preconditions)',
     ],
@@ -256,7 +257,7 @@ PROPS['C03'] = {
     'not_covered': [
         'PROVED on the verbatim Not branch of next_solution (node heap, R15): not(G) answers with the bindings the node was created with (Rc::clone of its own substitution set - G\'s bindings cannot be visible); it answers exactly when the request to G\'s node returned None (ghost record at the call site, clause #not_iff); '
         'once asked it is spent (more_solutions cleared on every path), so it succeeds at most once and a later request returns None without touching G',
-        'that G\'s node was created with the bindings current at the time (make_solution_node gives the head node the same substitution set) is part of the ASSUMED contract of make_solution_node; "G has no answer" is identified with "the first request to G\'s node returns None"',
+        'that G\'s node is made with the bindings not(G) is made with is PROVED on make_solution_node (clause #head_bindings); "G has no answer" is identified with "the first request to G\'s node returns None"',
         'RELATIVE TO the heap model (T8); partial correctness (G may not terminate)',
     ],
 }
